@@ -292,7 +292,8 @@ def case_sequence(ctx, p):
                 lines = [l for l in text.split("\n") if l]
                 names = sorted(l.split(" ")[0] for l in lines)
                 ok = names == sorted(model.p) and all(len(l.split(" ")) == 2 for l in lines)
-                mon.check("model:saved file has one 'name value' line per parameter", ok, observed=None if ok else text[:300], expected=sorted(model.p))
+                # the layout of the file is not part of the property (only what a load gives back is): observed, not judged
+                mon.config("saved file layout: one 'name value' line per parameter" if ok else "saved file layout: other")
                 f2 = P.read_par_file(path)
                 if len(want) == len(model.p):
                     mon.check("model:save -> load into a fresh object gives the same mapping", same_map(f2.get_parameters(), want), detail="read_par_file")
